@@ -121,3 +121,23 @@ def _dom_kind(q):
     if d[0] == 'set' and d[1] and d[1][0][0] == 'lit':
         kinds.add({'int': 'N', 'float': 'N', 'str': 'S', 'bool': 'B'}[d[1][0][1]])
     return ''.join(sorted(kinds)) or '?' + repr(d)
+
+
+import re as _re
+
+_F23_CALL = _re.compile(r'\b(?:roll|pitch|yaw)\s*\(\s*@([A-Za-z_]\w*)\s*\)')
+
+
+def bare_own_alias_shape(text):
+    """Does the text apply roll / pitch / yaw to an alias that some event of the text binds (`t as A {... roll(@A) ...}`)?"""
+    names = set(_F23_CALL.findall(text))
+    return any(_re.search(r'\bas\s+' + _re.escape(n) + r'\b', text) for n in names)
+
+
+def f23_bare_own_alias(v):
+    """The current message used as a bare value (only possible through the event's own alias, as the argument of
+    roll / pitch / yaw) has no printed form: str() gives `roll()`, which does not parse (finding F23)."""
+    if 'print-not-parsable' not in v.sig:
+        return False
+    inp = v.input
+    return isinstance(inp, dict) and isinstance(inp.get('text'), str) and bare_own_alias_shape(inp['text'])
